@@ -164,6 +164,69 @@ fn case_json(kind: &str, hist: &[Op], cfg: &Cfg, k: Option<u64>) -> Value {
 }
 
 impl C16 {
+    /// (1b) no fault: history, flush, drop, then a tree of ANOTHER depth is requested at the same location.
+    /// Refusing is fine; if a tree is handed back it must be the stored one (same root, leaves, leaf
+    /// count, metadata): the location holds acknowledged updates.
+    fn reopen_other_depth(&self, hist: &[Op], cfg: &Cfg, d2: usize) -> Vec<Discrepancy> {
+        let mut out = vec![];
+        let mut case = case_json("reopen-other-depth", hist, cfg, None);
+        case["requested_depth"] = json!(d2);
+        let path = scratch_dir("c16d");
+        let res = (|| -> Result<(), String> {
+            fault::disarm();
+            let mut t = open(&path, cfg)?;
+            let mut m = Model { tree: IdealTree::new(cfg.depth), meta: vec![] };
+            for op in hist {
+                match apply(&mut t, op) {
+                    R::Ok => m.step(op),
+                    R::Err(_) => {}
+                    R::Panic(p) => return Err(format!("panic in {}: {p}", op.to_json())),
+                }
+            }
+            if apply(&mut t, &Op::Flush) != R::Ok {
+                return Err("final flush failed without an injected fault".into());
+            }
+            let before = observe(&t, cfg.depth)?;
+            drop(t);
+            let cfg2 = Cfg { depth: d2, ..cfg.clone() };
+            let t2 = match guard(|| open(&path, &cfg2)) {
+                Err(p) => {
+                    out.push(Discrepancy { key: "C16/reopen-other-depth/panic".into(), case: case.clone(), detail: p });
+                    return Ok(());
+                }
+                Ok(Err(_)) => return Ok(()), // refused
+                Ok(Ok(t2)) => t2,
+            };
+            let key = |s: &str| format!("C16/reopen-other-depth/{s}");
+            let after = match observe(&t2, cfg.depth) {
+                Ok(a) => a,
+                Err(p) => {
+                    out.push(Discrepancy { key: key("panic"), case: case.clone(), detail: format!("reading the tree handed back: {p}") });
+                    return Ok(());
+                }
+            };
+            if after.root != before.root || after.root != m.tree.root() {
+                out.push(Discrepancy { key: key("root-differs"), case: case.clone(), detail: format!("depth {} stored, depth {d2} requested: root before close {}, of the tree handed back {}", cfg.depth, before.root, after.root) });
+            }
+            let want: Vec<BigUint> = obs_positions(cfg.depth).iter().map(|i| m.tree.leaf(*i)).collect();
+            if after.leaves != want {
+                out.push(Discrepancy { key: key("leaves-differ"), case: case.clone(), detail: format!("depth {} stored, depth {d2} requested: leaves {:?}, acknowledged {:?}", cfg.depth, after.leaves, want) });
+            }
+            if after.hwm != m.tree.hwm {
+                out.push(Discrepancy { key: key("leaf-count-differs"), case: case.clone(), detail: format!("leaves_set {} expected {}", after.hwm, m.tree.hwm) });
+            }
+            if after.meta != m.meta {
+                out.push(Discrepancy { key: key("metadata-differs"), case: case.clone(), detail: format!("metadata {:?} expected {:?}", after.meta, m.meta) });
+            }
+            Ok(())
+        })();
+        fault::disarm();
+        let _ = std::fs::remove_dir_all(&path);
+        if let Err(e) = res {
+            out.push(Discrepancy { key: "C16/reopen-other-depth/harness".into(), case, detail: e });
+        }
+        out
+    }
     /// (1) no fault: history, flush, drop, reopen, compare; then one more step from the reopened tree
     fn reopen(&self, hist: &[Op], cfg: &Cfg) -> (Vec<Discrepancy>, u64) {
         let mut out = vec![];
@@ -595,6 +658,7 @@ impl Prop for C16 {
         let cfg = cfg_from(&case["cfg"]);
         match case["kind"].as_str().unwrap_or("") {
             "reopen" => self.reopen(&hist, &cfg).0,
+            "reopen-other-depth" => self.reopen_other_depth(&hist, &cfg, case["requested_depth"].as_u64().unwrap_or(4) as usize),
             "fault" => self.faulted(&hist, &cfg, case["k"].as_u64().unwrap_or(0)),
             "creation-fault" => self.creation_fault(&cfg, case["k"].as_u64().unwrap_or(0)),
             "rln-reopen" => self.rln_reopen(&hist),
@@ -609,6 +673,12 @@ impl Prop for C16 {
         let base = Cfg::default_cfg();
         // (1) no-fault reopen for every history, measuring W(h)
         let r1 = par_map(&hs, ncpu(), |_, h| self.reopen(h, &base));
+        let ditems: Vec<(usize, usize)> = (0..hs.len()).flat_map(|i| [base.depth - 1, base.depth + 1].into_iter().map(move |d| (i, d))).collect();
+        let rd = par_map(&ditems, ncpu(), |_, (i, d)| self.reopen_other_depth(&hs[*i], &base, *d));
+        let n_other_depth = ditems.len();
+        for o in rd {
+            findings.report_all(o);
+        }
         let mut ws = vec![];
         for (h, (o, w)) in hs.iter().zip(r1.into_iter()) {
             if h.iter().any(|op| !matches!(op, Op::Flush)) && w == 0 && o.is_empty() {
@@ -705,7 +775,19 @@ impl Prop for C16 {
         let ncrash;
         {
             let tail = [Op::Flush, Op::T(TreeOp::Set(6, 1))];
-            let chs: Vec<Vec<Op>> = histories(if q { 2 } else { 3 }).into_iter().filter(|h| !h.is_empty()).map(|mut h| { h.extend_from_slice(&tail); h }).collect();
+            let mut chs: Vec<Vec<Op>> = histories(if q { 2 } else { 3 }).into_iter().filter(|h| !h.is_empty()).map(|mut h| { h.extend_from_slice(&tail); h }).collect();
+            if q {
+                // the quick tier also takes, from the length-3 histories, every [w1, flush, w2]: the second
+                // write starts from a storage handle with nothing pending
+                let a = alphabet();
+                for w1 in a.iter().filter(|o| !matches!(o, Op::Flush)) {
+                    for w2 in a.iter().filter(|o| !matches!(o, Op::Flush)) {
+                        let mut h = vec![w1.clone(), Op::Flush, w2.clone()];
+                        h.extend_from_slice(&tail);
+                        chs.push(h);
+                    }
+                }
+            }
             // W of each history by a dry run (storage operations after creation)
             let ws = par_map(&chs, ncpu(), |_, h| {
                 let path = scratch_dir("c16d");
@@ -733,7 +815,7 @@ impl Prop for C16 {
                 findings.report_all(o?);
             }
         }
-        let total = hs.len() + citems.len() + fitems.len() + ncreate + rl.len() + ncrash as usize + litems.len() + hs20.len() + f20items.len();
+        let total = hs.len() + n_other_depth + citems.len() + fitems.len() + ncreate + rl.len() + ncrash as usize + litems.len() + hs20.len() + f20items.len();
         ev.set("evaluations", json!(total));
         ev.set("distinct_nontrivial", json!(fitems.len() as u64 + f20items.len() as u64 + ncrash));
         ev.set("histories", json!(hs.len()));
@@ -741,12 +823,13 @@ impl Prop for C16 {
         ev.set("fault_positions_at_depth_20", json!(f20items.len()));
         ev.set("creation_fault_positions", json!(ncreate));
         ev.set("crash_points", json!(ncrash));
+        ev.set("reopen_with_other_depth_requested", json!(n_other_depth));
         ev.set("reopen_under_held_lock", json!(litems.len()));
         ev.set("configurations", json!(cfgs.iter().map(|c| c.name()).collect::<Vec<_>>()));
         ev.set("compression_available", json!(comp_ok));
         ev.set("max_storage_ops_per_history", json!(ws.iter().max().cloned().unwrap_or(0)));
         ev.set("exhaustive", json!(true));
-        ev.set("rule", json!("histories: every sequence of length <= L (3 quick / 4 thorough) over {set(0,a), set(5,b), delete(0), append(a), write_range(2,[a,b]), batch(0,[b],{0}), batch(remove {0,2}), set_metadata, flush} on a persistent tree of depth 3; (1) each history + flush + drop + reopen must give root, leaves, leaf count and metadata of the ideal tree, and four further operations on the reopened tree must follow the ideal tree; a spread of histories under every storage configuration; (2) for each history the number W of storage operations is measured by a dry run and for every k < W the k-th operation is made to fail: the tree operation in progress must return Err, then flush, drop, reopen must show every acknowledged update outside the failed operation's targets; the same at depth 20 for histories of length <= 1 (quick) / 2 (thorough) over positions 0, 2^19, 2^20-1 (about 20 storage writes per operation); faults during creation; reopening while the previous instance still holds the storage lock for {0,3,25,120} ms; (3) crash points: for every history up to length 2 (quick) / 3 (thorough) followed by [flush, write] a child process runs it, records each acknowledged operation in a side file and aborts at the k-th storage operation, for every k; after recovery everything acknowledged up to the last acknowledged flush must be there; distinct_nontrivial = distinct (history, k) fault positions + crash points"));
+        ev.set("rule", json!("histories: every sequence of length <= L (3 quick / 4 thorough) over {set(0,a), set(5,b), delete(0), append(a), write_range(2,[a,b]), batch(0,[b],{0}), batch(remove {0,2}), set_metadata, flush} on a persistent tree of depth 3; (1) each history + flush + drop + reopen must give root, leaves, leaf count and metadata of the ideal tree, and four further operations on the reopened tree must follow the ideal tree; the same with a tree of depth 2 or 4 requested at the location (refusal, or the stored tree unchanged); a spread of histories under every storage configuration; (2) for each history the number W of storage operations is measured by a dry run and for every k < W the k-th operation is made to fail: the tree operation in progress must return Err, then flush, drop, reopen must show every acknowledged update outside the failed operation's targets; the same at depth 20 for histories of length <= 1 (quick) / 2 (thorough) over positions 0, 2^19, 2^20-1 (about 20 storage writes per operation); faults during creation; reopening while the previous instance still holds the storage lock for {0,3,25,120} ms; (3) crash points: for every history up to length 2 (quick, plus every [w1, flush, w2]) / 3 (thorough) followed by [flush, write] a child process runs it, records each acknowledged operation in a side file and aborts at the k-th storage operation, for every k; after recovery everything acknowledged up to the last acknowledged flush must be there; distinct_nontrivial = distinct (history, k) fault positions + crash points"));
         if let Some((i, k)) = fitems.get(fitems.len() / 2) {
             ev.sample(case_json("fault", &hs[*i], &base, Some(*k)));
         }
